@@ -4,7 +4,8 @@ pid=$1; wt=$2; shift 2
 checks=${*:-$pid}
 cd $wt || exit 2
 PYTHONPATH=$wt timeout 300 /venv/bin/python demo.py >/tmp/demo_$pid.with 2>&1; w=$?
-git stash -q; PYTHONPATH=$wt timeout 300 /venv/bin/python demo.py >/tmp/demo_$pid.without 2>&1; wo=$?; git stash pop -q
+# (no git stash: the stash is shared by all worktrees of a repository, parallel evaluations swapped their changes once)
+git diff -- valjean > /tmp/evalseed_$pid.diff; git apply -R /tmp/evalseed_$pid.diff; PYTHONPATH=$wt timeout 300 /venv/bin/python demo.py >/tmp/demo_$pid.without 2>&1; wo=$?; git apply /tmp/evalseed_$pid.diff
 echo "SEED $pid demo: with-change exit=$w without exit=$wo"
 cd /verif
 for c in $checks; do
